@@ -277,7 +277,14 @@ pub fn gen_macros<R: Src>(r: &mut R, cfg: &GenCfg) -> Program {
          let (ra, ir, jr, rb, ks, ls) = r.pick(&shapes).clone();
          let (da, db) = (prog.rel(&ra).clone(), prog.rel(&rb).clone());
          let (ta, tb) = (da.cols[ir], db.cols[ls]);
-         let local = r.pick(&["x", "y", "z", "w", "v"]).to_string();
+         let local = r.pick(&["x", "y", "z", "w", "v", "m"]).to_string();
+         // the wrapper's own local: the same spelling, or the spelling the renamer could give a second copy of `local`
+         // (`x` / `x1`: fresh names must not collide across differently spelled locals either)
+         let wlocal = match r.below(3) {
+            0 => local.clone(),
+            1 => format!("{local}1"),
+            _ => format!("{local}2"),
+         };
          let mk = |d: &RelDecl, pos_param: usize, pname: &str, pos_local: usize| -> BodyItem {
             BodyItem::Clause {
                rel: d.name.clone(),
@@ -317,7 +324,7 @@ pub fn gen_macros<R: Src>(r: &mut R, cfg: &GenCfg) -> Program {
             prog.macros.push(MacroDef {
                name: "hopw".into(),
                params: hop.params.clone(),
-               body: vec![BodyItem::Disj(vec![vec![call("$p0", &local)], alt("$p0", &local)]), call(&local, "$p1")],
+               body: vec![BodyItem::Disj(vec![vec![call("$p0", &wlocal)], alt("$p0", &wlocal)]), call(&wlocal, "$p1")],
                head: vec![],
                is_head: false,
             });
